@@ -385,6 +385,17 @@ def compose_twin_cases():
                 for st in states:
                     yield e, dict(st), ('ct', n)
                     n += 1
+    # slot contents wider than their slot (the lifter writes cond ? 0xffffffff : 0 into byte and word slots: the slot takes the
+    # low bits), in the lowest, a middle and the top slot, next to constant and symbolic neighbours
+    ALL1, ZERO = I(0xffffffff, 32), I(0, 32)
+    k8, k16, k24 = I(0x56, 8), I(0x1234, 16), ex.ExprSlice(I(0x12345678, 32), 8, 32)
+    wide = [ex.ExprCond(c1, ALL1, ZERO), ex.ExprCond(c1, I(0x12345, 32), I(0x10000, 32)), ex.ExprCond(ex.ExprSlice(x, 31, 32), ALL1, ZERO), ex.ExprOp('-', x), I(0xabcdef12, 32)]
+    for wd in wide:
+        for e in (ex.ExprCompose([(wd, 0, 8), (k24, 8, 32)]), ex.ExprCompose([(k8, 0, 8), (wd, 8, 16), (k16, 16, 32)]), ex.ExprCompose([(k16, 0, 16), (wd, 16, 32)]),
+                  ex.ExprCompose([(wd, 0, 16), (k16, 16, 32)]), ex.ExprCompose([(wd, 0, 8), (d8, 8, 16), (k16, 16, 32)]), ex.ExprCompose([(wd, 0, 1), (ex.ExprSlice(ZERO, 1, 32), 1, 32)])):
+            for st in ({}, {c1: I(1, 1)}, {x: I(0x80000001, 32)}, {d8: I(0x7f, 8)}):
+                yield e, dict(st), ('ct', n)
+                n += 1
     z7 = ex.ExprId('z7', 7)
     for p1, p2 in bit_pairs:
         C1, C2 = ex.ExprCompose([(p1, 0, 1), (z7, 1, 8)]), ex.ExprCompose([(p2, 0, 1), (z7, 1, 8)])
